@@ -233,7 +233,28 @@ Definition res_obs_eqb (a b : res_obs) : bool :=
   | _, _ => false
   end.
 
+(** which service and which of its target groups (false = active, true = rollout) a serving target belongs to,
+    according to the state file of that step *)
+Definition served_group (o : step_obs) (sb : str) : option (str * bool) :=
+  match so_snapshot o with
+  | None => None
+  | Some l =>
+    match find (fun s => mem_str sb (sn_active s)) l with
+    | Some s => Some (sn_name s, false)
+    | None =>
+      match find (fun s => match sn_rollout s with Some ts => mem_str sb ts | None => false end) l with
+      | Some s => Some (sn_name s, true)
+      | None => None
+      end
+    end
+  end.
+
+Definition group_eqb (x y : option (str * bool)) : bool :=
+  option_eqb (fun p q => str_eqb (fst p) (fst q) && Bool.eqb (snd p) (snd q)) x y.
+
 Definition step_equiv (a b : step_obs) : bool :=
+  list_eqb (fun x y => group_eqb (served_group a (ro_served_by (snd x))) (served_group b (ro_served_by (snd y))))
+           (so_requests a) (so_requests b) &&
   res_obs_eqb (so_result a) (so_result b) &&
   list_eqb row_eqb (so_list a) (so_list b) &&
   option_eqb (list_eqb snap_eqb) (so_snapshot a) (so_snapshot b) &&
